@@ -5,6 +5,9 @@ import sys
 
 
 def get_prop(pid):
+    if pid == "C02":
+        import p_c02
+        return p_c02.C02Prop()
     if pid in ("C01", "C07"):
         import p_mgr
         return p_mgr.MgrProp(pid)
